@@ -6,7 +6,9 @@ from pyvc.se import *
 F = 'xmlschema/resources/sax.py'
 
 t = Target('sax.SafeExpatParser.reset', ['C13'], F, 'SafeExpatParser.reset',
-           note='after reset() the three expat handlers EntityDeclHandler, UnparsedEntityDeclHandler and ExternalEntityRefHandler are the forbid_* methods of the parser')
+           note='after reset() the three expat handlers EntityDeclHandler, UnparsedEntityDeclHandler and ExternalEntityRefHandler are the forbid_* methods of the parser, and parameter-entity '
+                'parsing is ALWAYS (expat then reports the external DTD subset to the handler also for standalone documents; UNLESS_STANDALONE / NEVER would silence it)',
+           assumes=['pyexpat: XML_PARAM_ENTITY_PARSING_NEVER / UNLESS_STANDALONE / ALWAYS = 0 / 1 / 2; the external subset is reported through ExternalEntityRefHandler only when parameter-entity parsing applies'])
 
 
 @t.symbolic
@@ -19,13 +21,19 @@ def _(run):
     st.env['self'] = VObj('self')
     ex.callees['super'] = lambda e, s, r, a, k: VObj('super_'); st.objf['super_'] = {}
     ex.callees['reset'] = lambda e, s, r, a, k: NONE
+    st.ghost['pe_mode'] = VInt(z3.IntVal(1))          # expatreader.ExpatParser.reset(): UNLESS_STANDALONE
+
+    def set_pe(e, s, r, a, k): s.ghost['pe_mode'] = a[0]; return VInt(z3.IntVal(1))
+    ex.callees['SetParamEntityParsing'] = set_pe
+    for i, nme in enumerate(('NEVER', 'UNLESS_STANDALONE', 'ALWAYS')): ex.names[('expat', 'XML_PARAM_ENTITY_PARSING_' + nme)] = VInt(z3.IntVal(i))
     pre = z3.BoolVal(True); outs = ex.run(st, pre)
     want = {'EntityDeclHandler': 'forbid_entity_declaration', 'UnparsedEntityDeclHandler': 'forbid_unparsed_entity_declaration', 'ExternalEntityRefHandler': 'forbid_external_entity_reference'}
 
     def post(kind, v, s):
         f = s.objf['parser']
         return z3.And(*[(f[h].t == SV(m)) if isinstance(f.get(h), VStr) else z3.BoolVal(False) for h, m in want.items()])
-    run.post(ex, outs, pre, {'forbidding-handlers-installed': post})
+    run.post(ex, outs, pre, {'forbidding-handlers-installed': post,
+                             'external-subset-reported-also-for-standalone-documents': lambda kind, v, s: (s.ghost['pe_mode'].t == 2) if isinstance(s.ghost['pe_mode'], VInt) else z3.BoolVal(False)})
 
 
 def mk_forbid(name):
